@@ -194,3 +194,36 @@ pub fn threads(sink: &mut Sink, seed: u64, thorough: bool, grp0: u64) {
         for evs in per_thread { for mut e in evs { e["id"] = json!(sink.id()); e["grp"] = json!(grp); sink.emit(&e); } }
     }
 }
+
+/// Soak: the same builder built, and the same code rendered, many times in one process on one thread; every result must equal the
+/// first one (a counter that wraps, a pool that runs dry, a cache that fills up).  One event per block of 1 000 calls.
+pub fn soak(sink: &mut Sink, seed: u64, thorough: bool) {
+    let blocks = if thorough { 70 } else { 6 };
+    let mut r = rng(seed, 43);
+    let input = payload(&mut r, 1, 14, true);
+    let res = guarded(3600, move || {
+        let mut b = QRBuilder::new(input.clone());
+        b.ecl(LEVELS[1]);
+        let first = match b.build() { Ok(q) => q, Err(_) => return vec![(0usize, 0usize, 0usize)] };
+        let fm = qr_modules(&first);
+        let text0 = first.to_str();
+        let svg0 = svg_builder(&[Call::Shape(1)]).to_str(&first);
+        let sb = svg_builder(&[Call::Shape(1)]);
+        let mut out = Vec::new();
+        for blk in 0..blocks {
+            let (mut same_build, mut same_render) = (0usize, 0usize);
+            for i in 0..1000usize {
+                let fresh = i % 97 == 0;
+                let q = if fresh { let mut f = QRBuilder::new(input.clone()); f.ecl(LEVELS[1]); f.build() } else { b.build() };
+                if let Ok(q) = q { if qr_modules(&q) == fm && q.mask.map(|m| m as usize) == first.mask.map(|m| m as usize) { same_build += 1; } }
+                if i % 4 == 0 { if first.to_str() == text0 && sb.to_str(&first) == svg0 { same_render += 1; } } else { same_render += 1; }
+            }
+            out.push((blk, same_build, same_render));
+        }
+        out
+    });
+    match res {
+        Ok(v) => for (blk, sb, sr) in v { let id = sink.id(); sink.emit(&json!({"ev": "HSoak", "id": id, "tag": "soak", "grp": 0, "block": blk, "calls": 1000, "same_build": sb, "same_render": sr, "kind": "Ok"})); },
+        Err(k) => { let id = sink.id(); sink.emit(&json!({"ev": "HSoak", "id": id, "tag": "soak", "grp": 0, "block": 0, "calls": 1000, "same_build": 0, "same_render": 0, "kind": k})); }
+    }
+}
